@@ -763,6 +763,7 @@ func (e *Exec) builtinCopy(dst Slice, src Value) Value {
 		// an encoded message copied as a whole (or its leading part) keeps standing for its value
 		if ss, ok := src.(Slice); ok && ss.obj.snapshot != nil && ss.off == ss.obj.snapOff && len(ss.path) == 0 && len(dst.path) == 0 && ss.len == ss.obj.snapLen {
 			dst.obj.snapshot, dst.obj.snapType = ss.obj.snapshot, ss.obj.snapType
+			dst.obj.snapAbsent = ss.obj.snapAbsent
 			dst.obj.snapOff, dst.obj.snapLen = dst.off, ss.obj.snapLen
 		}
 	}
